@@ -80,42 +80,67 @@ AUX_THEOREMS = [
 ]
 TRUSTED = [
     "Lean 4.33.0 kernel; axioms limited to propext, Classical.choice, Quot.sound (audited by #print axioms on every run)",
-    "hand transcription of Count (fill, compute, reset, run), Sum, DSum, Mean (sum_seq None / Sum() / DSum() / any FillCompute "
-    "sum sequence), VarianceMeanCount, Vectorize (bare elements or FillComputeSeq components, construct), StoreFilled, "
-    "GroupBy, Histogram (own one-dimensional model, and any dimension on the shared model LenaModel/Model/C06.lean) and "
-    "Graph (fill/compute/reset/_update) into LenaModel/Model/C09.lean, validated by this correspondence check (all histories "
-    "up to 4 calls over small value sets, seeded random histories up to 12 calls)",
+    "hand transcription of Count (fill, compute, reset, run, fill_into), Sum, DSum, Mean (sum_seq None / Sum() / DSum() / any "
+    "FillCompute sum sequence with numeric results), VarianceMeanCount (Sum() sums), Vectorize (copies of one component or a "
+    "list of Sum/Count components, bare or FillComputeSeq components, construct), StoreFilled, GroupBy, Histogram (own "
+    "one-dimensional model, and any dimension on the shared model LenaModel/Model/C06.lean) and Graph (__init__, fill, "
+    "compute, reset, _update) into LenaModel/Model/C09.lean, validated by this correspondence check on the yielded "
+    "values, exceptions and documented public state only (no private attribute is read)",
     "LenaModel/Model/C06.lean (histogram.__init__/fill, owned by property C06) and LenaModel/Model/C15.lean (GroupBy with the "
     "real key function, owned by C15), whose own checks validate them; C09 re-validates the histogram part on its cases",
-    "decimal.Context.add under traps=[Inexact] as transcribed: exact sum if it has at most prec significant digits, "
-    "else Inexact (validated through the final value and the final precision of every DSum history)",
+    "decimal.Context.add under traps=[Inexact] as transcribed (ctxAdd): exact sum if it has at most prec significant digits, "
+    "else Inexact.  This is the crux of DSum's exactness and it is an assumption about the decimal module, not a theorem "
+    "(dsum_exact is exact by construction of ctxAdd; what the theorems add is termination of the precision loop, "
+    "Decimal(float) exact, Dec.add exact); ctxAdd is compared with decimal.Context(prec, traps=[Inexact]).add itself on "
+    "every DSum case ('ctxadd' spec requests, independent of lena)",
     "JSON line protocol encoders (harness/props/c09.py, drivers/C09.lean), including the exact scaling of floats to integers",
 ]
 ASSUMPTIONS = [
-    "exact arithmetic: ints, and floats chosen so that every partial sum and square is exactly representable; "
-    "the quotients of Mean and VarianceMeanCount are exact rationals in the model, the implementation's floats are "
-    "compared with the correctly rounded evaluation of the same expression (rounding itself is not modelled)",
-    "contexts are flat dictionaries whose leaves are opaque to the accumulators (nested dictionaries are opaque leaves)",
+    "exact arithmetic: ints, and finite floats chosen so that every partial sum and square is exactly representable; the "
+    "quotients of Mean and VarianceMeanCount are exact rationals in the model and the implementation's floats are compared "
+    "with them within the forward error bound of a float evaluation (4 ulp for a mean, 16 u n/(n-1) (E[x^2]+mean^2) for the "
+    "two-sums variance) - any re-association or a more accurate algorithm passes; rounding itself is not modelled",
+    "finite floats only: inf / nan (DSum.fill(inf); fill(-inf) gives NaN silently: InvalidOperation is not trapped) have no "
+    "exact sum and are outside the statement; Emax/Emin of the decimal context are not reached",
+    "value semantics: the model has no object identity; that yielded contexts and StoreFilled groups are copies is checked by "
+    "the harness (every yielded context / group is re-encoded at the end of the history); liveness of yielded histograms, "
+    "graphs and GroupBy groups, and writes into the filled value's own context (Count.compute) are property C04's subject",
+    "contexts are flat dictionaries whose leaves are opaque to the accumulators (nested dictionaries are opaque leaves; "
+    "update_recursively on nested contexts of a sum sequence is checked by the oracle only)",
+    "reset() equals a NEW element means: constructed with the same configuration and the documented start that the reset "
+    "docstrings name - Count/Sum/DSum: zero, not the initial count/total; Graph: no points, empty context, the scale "
+    "argument - not the points/context given to Graph(points=, context=) (graph_from_reset_not_same_args is the proved "
+    "counterexample to the other reading)",
+    "make_bins is a pure function returning a new object of the same value on every call (the model holds its value)",
     "GroupBy's key function (IncludeExcludeTree.get + to_string) is property C15's subject; in the C09 correspondence a value "
     "comes with the key computed by an independent reference for top-level group_by/merge keys (None when the key cannot "
     "be rendered); theorem groupby_c15_compute_spec links the abstract model to C15's transcription with the real key function",
     "the interpolation guess of Histogram's bin search is a parameter of the shared model whose value does not influence the "
     "result (C06: bin1d_guess_independent); the C09 driver uses bisection",
-    "Decimal(float) is the exact decimal expansion of the float (Dec.ofDy); Emax/Emin of the decimal context are not reached",
+    "Vec.computeGo runs every component's compute() to completion in turn while zip_longest interleaves next() calls: "
+    "equivalent because no modelled component raises after its first value or observes another component",
     "adapters (FillRequest, FillRequestSeq, FillCompute) around an accumulator are transparent while the block size is not "
     "reached: fill/reset through them are the element's own (validated on the cases with 'via')",
+    "outside the modelled and generated configurations (recorded exclusions): VarianceMeanCount with sums other than Sum() "
+    "(one sum without reset is generated: the element then has no reset); Vectorize around an element without reset "
+    "(del self.reset raises AttributeError at construction - DESIGN 6), around Histogram/Graph/GroupBy, FillComputeSeq "
+    "components with elements after the accumulator, TypeError raised inside construct; Histogram bins with ragged inner "
+    "dimensions; the error branch of Mean.fill around a sum sequence whose fill raises (modelled, not exercised); elements "
+    "whose reset belongs to a fill/request protocol: FillRequest, FillRequestSeq, Zip (fill/request form), NumpyHistogram "
+    "(numpy absent), the private _GroupBy - the property's histories are fill/compute/reset",
 ]
-RULE = ("per element configuration (64 of them: Count, Sum, DSum, Mean[None|Sum()|DSum()|Sum(start)|Count()|StoreFilled(False)|"
+RULE = ("per element configuration (77 of them: Count, Sum, DSum, Mean[None|Sum()|DSum()|Sum(start)|Count()|StoreFilled(False)|"
         "FillCompute(Sum()) without reset], VarianceMeanCount[default or explicit sums], Vectorize[Sum|Count|Mean|Mean(DSum())|DSum|"
         "VarianceMeanCount|StoreFilled, bare or wrapped in FillComputeSeq(lambda x: k*x, .), dim 1..3, list form, short and long "
         "data vectors, construct None|variadic|namedtuple of right and wrong size], StoreFilled, GroupBy[default|group_by|merge, "
         "keys that cannot be rendered], Histogram[1-d, 2-d, 3-d, nested single axis, initial bins, make_bins, initial_value, "
         "coordinates of the wrong dimension], Graph[scale, sort, tuple coordinates of equal and different dimensions], elements "
-        "filled and reset through FillRequest / FillRequestSeq / FillCompute adapters): EVERY history of up to 4 calls (thorough: "
-        "up to 5 for the single-accumulator families) over {fill(v1), fill(v2), compute, reset}; Count with every history of up to "
-        "3 (thorough 4) calls over {run(2 values), run(()), run(1 value), fill, compute, reset}; construction argument checks of "
+        "filled and reset through FillRequest / FillRequestSeq / FillCompute adapters): EVERY history of up to 4 calls (quick: 3 for the "
+        "Vectorize/Mean/VarianceMeanCount families; thorough: up to 5 for the single-accumulator families) over {fill(v1), "
+        "fill(v2), compute, reset}; Count with every history of up to 3 (thorough 4) calls over {run(2 values), run(()), "
+        "run(1 value), fill, fill_into(2 values), compute, reset}; construction argument checks of "
         "Histogram, Vectorize, GroupBy; a regression corpus; plus seeded random histories fill* (compute|reset|fill)* of up to 12 "
-        "calls (quick 6 000, thorough 200 000) with ints (up to 1e30 for Sum), exactly summable floats of mixed magnitude "
+        "calls (quick 4 000, thorough 170 000) with ints (up to 1e30 for Sum), exactly summable floats of mixed magnitude "
         "(multiples of 2**-k, k up to 20), (data, context) pairs with flat and nested contexts; DSum, Mean(DSum()) and their "
         "Vectorize with arbitrary floats (denormals to 1e308, cancelling pairs, huge ints).  Every case also sends the "
         "specification vocabulary of the theorems (Model/C09Spec.lean) to the driver and compares it with Python references.  "
@@ -2040,22 +2065,30 @@ def gen_cases(ctx):
     for spec, sh, (v1, v2) in _specs_small():
         alphabet = [["f", v1], ["f", v2], ["c"], ["r"]]
         big = spec["k"] in ("vec", "mean", "vmc")
-        depth = 4 if quick else (4 if big else 5)
+        depth = (3 if big else 4) if quick else (4 if big else 5)
         for h in _all_histories(alphabet, depth):
             yield {"el": spec, "ops": h, "sh": sh}
-    n = 6000 if quick else 200000
+    n = 4000 if quick else 170000
     for _ in range(n):
         yield _rand_case(rng, 12)
 
 
 # ---- MANIFEST texts ------------------------------------------------------------------------
-LEVEL_TEXT = ("Lean 4 theorems about transcribed state machines (init, fill, compute, reset) of Count, Sum, DSum, Mean, "
-              "VarianceMeanCount, Vectorize, StoreFilled, GroupBy, Histogram (1-d) and Graph, for all fill sequences and all "
-              "histories (no bound); the models are tied to /repo by a correspondence check over every history of up to 4-5 "
-              "calls on small value sets plus seeded random histories of up to 12 calls, and a direct oracle (exact "
-              "Fraction arithmetic, fresh-element comparison) on the real code.")
+LEVEL_TEXT = ("Lean 4 theorems about transcribed state machines (init, fill, compute, reset) of Count (also run, fill_into), Sum, "
+              "DSum, Mean, VarianceMeanCount, Vectorize, StoreFilled, GroupBy, Histogram (any dimension, on C06's model) and Graph, "
+              "for all fill sequences and all histories (no bound): the documented aggregate after any history of fills and "
+              "computes, and observational equality with a new element after reset.  The models are tied to /repo by a "
+              "correspondence check over every history of up to 3-5 calls on 77 small configurations plus seeded random "
+              "histories of up to 12 calls, and a direct oracle (exact Fraction arithmetic, fresh-element replay after every "
+              "reset, copies stay unchanged) on the real code.")
 LEVEL_NOTE = ("Trusted: Lean kernel (+ propext, Classical.choice, Quot.sound), the hand transcription validated by the "
-              "correspondence run, decimal.Context.add as transcribed, exact instead of floating-point arithmetic "
-              "(rounding of Mean/VarianceMeanCount quotients is outside the model), the JSON protocol.")
+              "correspondence run on observable behaviour, decimal.Context.add as transcribed (the crux of DSum's exactness is "
+              "this assumption, validated against the decimal module), exact instead of floating-point arithmetic, the JSON "
+              "protocol.  For the elements whose reset assigns constants (Count, Sum, StoreFilled, GroupBy, VarianceMeanCount, "
+              "Histogram, Graph) the Lean statement of sentence 2 is a transcription check (one rfl, listed in AUX_THEOREMS): "
+              "forgotten attributes or aliasing with constructor arguments cannot be expressed in the value model, so the "
+              "assurance for sentence 2 of these elements is the harness's replay on a new element after every reset; the "
+              "reset theorems with content are those of DSum (precision kept), Mean (unused component), Vectorize (all "
+              "components, by invariant / simulation / per-component home state) and Mean around any sum sequence.")
 TECHNIQUE = "Lean 4 proof over hand-written model + correspondence check over enumerated and sampled histories"
 DESIGN_REF = "DESIGN.md section 3, C09"
